@@ -351,6 +351,29 @@ def applyEdp (wantEdp wantE wantL : Bool) : Vec → Vec
     else e :: l :: rest
   | v => v
 
+/-! ## Fast executable versions used by the driver (proved equal in `Lemmas/SearchFast.lean`) -/
+
+/-- A candidate as one vector on which `leqAll` is candidate dominance inside a class: the number of
+objective columns (twice, with both signs, so that it must agree), then objectives, then reservations. -/
+def encC (c : Cand K) : Vec := (c.obj.length : Int) :: -(c.obj.length : Int) :: (c.obj ++ c.res)
+
+def decC (k : K) : Vec → Cand K
+  | n :: _ :: rest => ⟨k, rest.take n.toNat, rest.drop n.toNat⟩
+  | _ => ⟨k, [], []⟩
+
+/-- `prune`, class by class, with the sort-and-sweep front. -/
+def pruneFast (cs : List (Cand K)) : List (Cand K) :=
+  (dedup (cs.map (·.key))).flatMap (fun k =>
+    (frontFast ((cs.filter (fun c => decide (c.key = k))).map encC)).map (decC k))
+
+/-- No stage filter. -/
+def noFilter : Filters K := ⟨fun _ => true, fun _ _ => true⟩
+
+/-- `joinExact` without materialising the tuples: fold the tables, keep within-capacity full
+combinations, prune fast. -/
+def joinExactFast (ops : Ops K) (cap : Int) (tables : List (List (Cand K))) : List (Cand K) :=
+  pruneFast ((surv ops noFilter tables).filter (fitsC cap))
+
 /-- Rename the compatibility class of a candidate. -/
 def mapKey {K' : Type} (ρ : K → K') (c : Cand K) : Cand K' := ⟨ρ c.key, c.obj, c.res⟩
 
